@@ -59,6 +59,14 @@ type Tamper struct {
 	// (and holding whatever it holds). The harness uses it to run another
 	// RPC at exactly that point; it does not change any message.
 	AfterFirstResponse func()
+	// SecondMessage alters the renter's fully built second message (the one
+	// carrying its signatures) right before it is sent.
+	SecondMessage func(o proto4.Object)
+	// DoubleSpend (form / renew / refresh): after the host's first response
+	// the renter spends its own funding inputs in another transaction and
+	// gets it into the host's pool, then carries on honestly; the finished
+	// set then conflicts with the pool.
+	DoubleSpend bool
 }
 
 func (t *Tamper) prices(p proto4.HostPrices) proto4.HostPrices {
@@ -79,6 +87,12 @@ func (t *Tamper) challenge(r *Renter, n uint64, hash func(uint64) types.Hash256)
 		}
 	}
 	return key.SignHash(hash(n))
+}
+
+func (t *Tamper) second(o proto4.Object) {
+	if t != nil && t.SecondMessage != nil {
+		t.SecondMessage(o)
+	}
 }
 
 func (t *Tamper) between() {
